@@ -19,7 +19,6 @@ from .core import write_replay
 from .universe import Universe, Unsupported
 
 
-TBU = grammar.TBU     # a type variable bounded by a union
 
 
 def _twin_cls(registered):
@@ -42,6 +41,12 @@ CALLABLES = [('CallableBare', typing.Callable), ('Callable[[int],str]', typing.C
              ('Callable[[bool],str]', typing.Callable[[bool], str]), ('Callable[[int],object]', typing.Callable[[int], object]),
              ('abc.Callable[[int],str]', _cabc.Callable[[int], str]), ('Optional[Callable[[int],str]]', typing.Optional[typing.Callable[[int], str]]),
              ('List[Callable[[int],str]]', typing.List[typing.Callable[[int], str]])]
+# union-like children nested more than one level deep (a type variable bounded by a union / by another
+# bounded type variable, inside a union)
+TBU = grammar.TBU
+TSB = typing.TypeVar('TSB', bound=grammar.TB)
+DEEP_UNIONS = [('TBU', TBU), ('Optional[TBU]', typing.Optional[TBU]), ('TSB', TSB), ('Optional[TSB]', typing.Optional[TSB]),
+               ('Union[TSB,str]', typing.Union[TSB, str]), ('List[Optional[TBU]]', typing.List[typing.Optional[TBU]])]
 TWINS = [('TwinTI', TWIN_TI), ('TwinTS', TWIN_TS), ('List[TwinTS]', typing.List[TWIN_TS]), ('List[TwinTI]', typing.List[TWIN_TI]),
          ('Optional[TwinTI]', typing.Optional[TWIN_TI]), ('Optional[TwinTS]', typing.Optional[TWIN_TS]),
          ('TwinCA', TWIN_CA), ('TwinCI', TWIN_CI), ('List[TwinCI]', typing.List[TWIN_CI]), ('List[TwinCA]', typing.List[TWIN_CA]),
@@ -64,10 +69,10 @@ def hint_pool(tier, seed):
             if '[' not in name or any(name.endswith(f'[{l}]') for l in ('int', 'str', 'UA', 'Lit1', 'bool', 'object', 'TU', 'TB')) \
                     or (',' in name and i % 5 == 0):
                 keep.append((name, h))
-        out = keep[:230] + grammar.annotated_hints(1, limit=24)[:24] + [h for h in grammar.special_hints() if 'Any' not in h[0] and 'LiteralString' not in h[0] and 'Unpack' not in h[0] and '*tuple' not in h[0]][::4] + TWINS + CALLABLES
+        out = keep[:230] + grammar.annotated_hints(1, limit=24)[:24] + [h for h in grammar.special_hints() if 'Any' not in h[0] and 'LiteralString' not in h[0] and 'Unpack' not in h[0] and '*tuple' not in h[0]][::4] + TWINS + CALLABLES + DEEP_UNIONS
     else:
         quick = hint_pool('quick', seed)
-        out = quick + CALLABLES + out[:700] + grammar.special_hints() + grammar.hints_depth2_curated()[::4] + [
+        out = quick + out[:700] + grammar.special_hints() + grammar.hints_depth2_curated()[::4] + [
             ('Union[TB,str]', typing.Union[grammar.TB, str]), ('Union[TC,None]', typing.Optional[grammar.TC]),
             ('Optional[NTInt]', typing.Optional[grammar.NTInt]), ('Union[TL,int]', typing.Union[grammar.TL, int]),
             ('TBU', TBU), ('Optional[TBU]', typing.Optional[TBU]), ('List[Optional[TB]]', typing.List[typing.Optional[grammar.TB]])]
